@@ -635,3 +635,37 @@ def tidy_up_callers(chk, ctx):
                    message="check_pending_results acknowledges the held events of every branch and deletes the join state when no group is terminated: called while sibling branches are "
                            "still running or already finished (e.g. for a Task retried inside a Map iteration) it discards their results and the join never completes")
     chk.floor("C05.R8", n, 4, "call sites of check_pending_results")
+
+
+# ---------------------------------------------------------------------------------------------------------------------
+# C05.R9: the marker of a slot whose result has not arrived must not be a value a branch can legitimately produce
+def pending_marker_not_data(chk, ctx):
+    se = ctx.mod("state_engine")
+    p = ctx.protocol()
+    join = p.join
+    # the marker: "results": [<marker>] * length
+    markers = set()
+    for q, f in se.funcs.items():
+        for n in body_nodes(f):
+            if isinstance(n, ast.Dict):
+                for k, v in zip(n.keys, n.values):
+                    if const(k) == "results" and isinstance(v, ast.BinOp) and isinstance(v.op, ast.Mult) and isinstance(v.left, ast.List) and len(v.left.elts) == 1:
+                        markers.add(norm(v.left.elts[0]))
+    chk.floor("C05.R9", len(markers), 1, "initialisations of the join's results array")
+    chk.ob("C05.R9", "one pending marker (%s)" % sorted(markers), len(markers) == 1, "", key="join results array | several pending markers %s" % sorted(markers), where=join.where(), message="")
+    # what is stored: result[index] = <name>; can <name> be the marker?
+    stores = [s for s in body_nodes(join) if isinstance(s, ast.Assign) and len(s.targets) == 1 and isinstance(s.targets[0], ast.Subscript) and norm(s.targets[0]) == "result[index]"]
+    chk.floor("C05.R9", len(stores), 1, "stores of a branch output into its slot")
+    for s in stores:
+        v = s.value
+        src = None
+        if isinstance(v, ast.Name):
+            ds = [d for d in name_defs(join, v.id) if isinstance(d, ast.Assign)] or [d for d in name_defs(p.notify, v.id) if isinstance(d, ast.Assign)]
+            src = [norm(d.value) for d in ds]
+        any_json = src is not None and any("event" in x and "data" in x for x in src)
+        guarded = any(arm == "body" and ("%s is not None" % norm(v) in norm(i.test) or "%s != None" % norm(v) in norm(i.test)) for i, arm in enclosing_ifs(se, s, join.node))
+        clash = "None" in markers and any_json and not guarded
+        chk.ob("C05.R9", "the value stored in a slot (`%s` = %s) can never equal the pending marker" % (norm(v), src), not clash, "",
+               key="%s | the pending marker None is also a legal branch output (JSON null stored by `%s`)" % (join.qname, norm(s)), where=se.line(s),
+               message="a branch or iteration whose output is JSON null stores None in its slot, which every completeness test (`None in result`, `result[i] == None`) reads as "
+                       "'not yet arrived': the join never completes and the execution stays RUNNING for ever")
